@@ -1215,14 +1215,36 @@ def oracle_c11(ctx, focus):
                 reqs += ["occ\t%s\t%s\t%s" % (lang, th, esc(t)), "occ\t%s\t%s\t%s" % (lang, th, esc(r)),
                          "val\t%s\t%s" % (lang, esc(t)), "val\t%s\t%s" % (lang, esc(r))]
                 meta.append((t, r))
+        # letters whose lowercase has another UTF-8 length (or another number of chars) than the letter itself, in the
+        # ordinary words around the numbers: the text and its lowercase must give the same occurrences
+        exotic = ["\u0130zmir", "STRA\u1e9eE", "\u212a", "\u2126", "\u212b", "\u023a", "\u023e", "\u01c5", "GRO\u1e9e", "\u0130"]
+        for _ in range(200 if ctx.tier != "thorough" else 3000):
+            ws = sentence(rng, lang, bank, extra=linking_words(lang)).split(" ")
+            for _k in range(1 + rng.below(2)):
+                ws.insert(rng.below(len(ws) + 1), rng.choice(exotic))
+            r = " ".join(ws)
+            t = r.lower()
+            if r.upper().lower() != t or t == r:
+                continue
+            th = rng.choice(thrs)
+            reqs += ["occ\t%s\t%s\t%s" % (lang, th, esc(t)), "occ\t%s\t%s\t%s" % (lang, th, esc(r)),
+                     "val\t%s\t%s" % (lang, esc(t)), "val\t%s\t%s" % (lang, esc(r))]
+            meta.append((t, r))
         outs = run_impl(ctx, "c11" + lang, reqs)
         for i, (t, r) in enumerate(meta):
             n += 4
+            if "PANIC" in (outs[4 * i], outs[4 * i + 1], outs[4 * i + 2], outs[4 * i + 3]):
+                failures.append(fail(r, "PANIC", "same occurrences as for %r" % t, reqs[4 * i:4 * i + 4], lang=lang, what="case-panic"))
+                continue
             o1, _ = parse_occ_answer(outs[4 * i])
             o2, tk2 = parse_occ_answer(outs[4 * i + 1])
             if o1 != o2:
+                # U+0130 lowercases to two code points (i + combining dot), and the combining dot is not alphanumeric: the
+                # lowercase text has two more tokens per such letter. Same numbers, shifted spans: a finding of its own kind.
+                same_numbers = o1 is not None and o2 is not None and [o[2:] for o in o1] == [o[2:] for o in o2]
+                kind = "case-span-dotted-I" if ("\u0130" in r and same_numbers) else "case"
                 failures.append(fail(r, "occurrences %s" % [(o[0], o[1], o[2]) for o in (o2 or [])], "as for %r: %s" % (t, [(o[0], o[1], o[2]) for o in (o1 or [])]),
-                                     reqs[4 * i:4 * i + 2], lang=lang, what="case"))
+                                     reqs[4 * i:4 * i + 2], lang=lang, what=kind))
             if outs[4 * i + 2] != outs[4 * i + 3]:
                 failures.append(fail(r, "validate -> " + unesc(outs[4 * i + 3]), unesc(outs[4 * i + 2]), reqs[4 * i + 2:4 * i + 4], lang=lang, what="case-validate"))
             distinct.add((lang, t))
